@@ -65,13 +65,27 @@ def run(chk):
                     if (a.volume, a.centroid, a.loc, a.sr) != (b.volume, b.centroid, b.loc, b.sr):
                         chk.violation('impl-vs-impl', 'selected cell %d differs bitwise from the full construction %s' % (i, where), rp, key='cell')
                     pf = listed_faces(p, i, inp)
-                    if set(pf) != set(fl[i]):
+                    # faces of negligible area may be present on one side only: at a degenerate corner (exact lattice, co-spherical
+                    # set) each cell resolves the corner in its own clipping order, and which of the two cells stores a face
+                    # depends on the mask -- the stored zero-area faces are each cell's OWN view in the partial build and the
+                    # lower-index neighbour's view in the full build (DESIGN §10.4)
+                    def negligible(d, k):
+                        return all(a is not None and abs(a) <= tol.area for a in d[k])
+                    extra = [k for k in set(pf) ^ set(fl[i]) if not negligible(pf if k in pf else fl[i], k)]
+                    if set(pf) != set(fl[i]) and not extra:
+                        chk.extra_cov['negligible_faces_on_one_side_only'] = chk.extra_cov.get('negligible_faces_on_one_side_only', 0) + 1
+                        common = set(pf) & set(fl[i])
+                        pf = {k: pf[k] for k in common}
+                        fli = {k: fl[i][k] for k in common}
+                    else:
+                        fli = fl[i]
+                    if set(pf) != set(fli):
                         # faces of negligible area may legitimately differ? no: same convex cell -> same planes; strict
                         chk.violation('impl-vs-impl', 'selected cell %d lists faces %s, in the full construction %s %s' % (i, sorted(map(str, pf)), sorted(map(str, fl[i])), where), rp, key='faces')
                     else:
                         for k in pf:
-                            if len(pf[k]) != len(fl[i][k]) or any(abs(x - y) > tol.area * (10000 if True else 1) for x, y in zip(sorted(pf[k]), sorted(fl[i][k]))):
-                                chk.violation('impl-vs-impl', 'face %s of cell %d: area %s vs %s in the full construction %s' % (k, i, [float(x) for x in pf[k]], [float(x) for x in fl[i][k]], where), rp, key='area')
+                            if len(pf[k]) != len(fli[k]) or any(abs(x - y) > tol.area * (10000 if True else 1) for x, y in zip(sorted(pf[k]), sorted(fli[k]))):
+                                chk.violation('impl-vs-impl', 'face %s of cell %d: area %s vs %s in the full construction %s' % (k, i, [float(x) for x in pf[k]], [float(x) for x in fli[k]], where), rp, key='area')
                 else:
                     if a.volume != 0 or any(x != 0 for x in a.centroid):
                         chk.violation('impl-vs-oracle', 'unselected cell %d has non-zero volume/centroid %s' % (i, where), rp, key='zero')
@@ -90,6 +104,8 @@ def run(chk):
                 if f.right is None or f.shift is not None:
                     continue
                 a, b = f.left, f.right
+                if f.area is not None and abs(f.area) <= tol.area:
+                    continue      # a face of negligible area exists only in the view of the cell that stores it (see above)
                 if mask[a] != mask[b]:
                     if seen.get((min(a, b), max(a, b)), 0) != 1:
                         chk.violation('impl-vs-impl', 'face between selected and unselected cells %d,%d missing %s' % (a, b, where), rp, key='missing')
